@@ -14,8 +14,9 @@ Semantics implemented (MusicXML 3.1, elements <attributes><divisions>, <note>, <
   * <grace/> notes have no duration and do not move the cursor;
   * <backup>/<forward> move the cursor; a measure ends at the largest position reached in it and the
     next measure starts there;
-  * <tie type="stop"> joins the note to the open note of the same pitch that ends exactly at its
-    onset (ties are paired by pitch), <tie type="start"> leaves the note open; rests do not sound.
+  * <tie type="stop"> joins the note to the note of the same pitch with <tie type="start"> that ends
+    exactly at its onset (ties are paired by pitch and time, whatever the order of the two notes in
+    the document); rests do not sound.
 """
 from fractions import Fraction
 
@@ -41,8 +42,7 @@ def read_sounding(data):
         pid = part.get("id")
         divisions = None
         cursor = Fraction(0)
-        events = []  # [onset, end, pitch]
-        open_ties = {}  # pitch -> list of indices into events that are open (tie start)
+        raw = []  # (onset, document index, end, pitch, tie stop, tie start)
         mext = []
         for measure in part.findall("measure"):
             m_start = cursor
@@ -79,20 +79,7 @@ def read_sounding(data):
                         pitch = ("U", _txt(u, "display-step"), int(_txt(u, "display-octave")))
                     if pitch is not None:
                         ties = set(t.get("type") for t in e.findall("tie"))
-                        joined = False
-                        if "stop" in ties:
-                            cand = [i for i in open_ties.get(pitch, []) if events[i][1] == onset]
-                            if cand:
-                                i = cand[0]
-                                open_ties[pitch].remove(i)
-                                events[i][1] = end
-                                joined = True
-                                if "start" in ties:
-                                    open_ties.setdefault(pitch, []).append(i)
-                        if not joined:
-                            events.append([onset, end, pitch])
-                            if "start" in ties:
-                                open_ties.setdefault(pitch, []).append(len(events) - 1)
+                        raw.append((onset, len(raw), end, pitch, "stop" in ties, "start" in ties))
                     if not grace:
                         prev_onset = onset
                         if chord:
@@ -102,6 +89,24 @@ def read_sounding(data):
                         m_max = max(m_max, cursor)
             mext.append((m_start, m_max))
             cursor = m_max
+        # ties are paired by pitch and time, whatever the document order of the two notes
+        events = []  # [onset, end, pitch]
+        open_ties = {}  # pitch -> indices into events whose last note has a tie start
+        for onset, _, end, pitch, stop, start in sorted(raw, key=lambda r: (r[0], r[1])):
+            joined = False
+            if stop:
+                cand = [i for i in open_ties.get(pitch, []) if events[i][1] == onset]
+                if cand:
+                    i = cand[0]
+                    open_ties[pitch].remove(i)
+                    events[i][1] = end
+                    joined = True
+                    if start:
+                        open_ties[pitch].append(i)
+            if not joined:
+                events.append([onset, end, pitch])
+                if start:
+                    open_ties.setdefault(pitch, []).append(len(events) - 1)
         out[pid] = sorted(((o, en - o, p) for o, en, p in events), key=repr)
         extents[pid] = mext
     return out, extents
